@@ -146,6 +146,10 @@ def encode(kind: str, h: str):
         return np.frombuffer(bytes.fromhex(h), dtype=np.uint8).copy()
     if kind == 'pandas':
         return pd.DataFrame({'prov': [h, h], 'n': [1, 2]})
+    if kind in ('empty_gen', 'empty_listnp'):
+        return []          # legitimately empty results (0-byte .jsonl / empty directory): value carries no provenance
+    if kind == 'empty_dir':
+        return {}
     if kind in ('generator', 'lazy'):
         return [['prov', h], 1, {'k': None}]
     if kind == 'listnp':
@@ -162,7 +166,7 @@ def expected_vdigest(kind: str, h: str) -> str:
     v = encode(kind, h)
     if kind == 'lazy':
         return H(tcanon(['lazy', v]))
-    if kind in ('dir', 'continues'):
+    if kind in ('dir', 'continues', 'empty_dir'):
         return H(tcanon({'__dir__': v}))
     if kind == 'memory':
         return H(tcanon(['mem', v]))
@@ -172,8 +176,9 @@ def expected_vdigest(kind: str, h: str) -> str:
 RETURN_TYPES = {
     'json_dict': dict, 'json_list': list, 'str': str, 'int': int, 'numpy': np.ndarray, 'pandas': pd.DataFrame,
     'generator': Generator, 'lazy': list, 'listnp': list, 'dir': DirData, 'continues': ContinuesData, 'memory': LabMem,
+    'empty_gen': Generator, 'empty_listnp': list, 'empty_dir': DirData,
 }
-DATA_CLASS = {'lazy': GeneratedDataLazy, 'listnp': ListOfNumpyData}
+DATA_CLASS = {'lazy': GeneratedDataLazy, 'listnp': ListOfNumpyData, 'empty_listnp': ListOfNumpyData}
 
 
 def descriptor_hash(slug, persisted_params: dict, explicit_digests: list, all_digests: list) -> str:
@@ -260,14 +265,14 @@ def lab_run(task, spec, args):
     value = encode(kind, h)
     if fault_kind == 'unserializable' and kind in ('json_dict', 'json_list'):
         value = {'prov': h, 'bad': Unserializable()} if kind == 'json_dict' else ['prov', h, Unserializable()]
-    if kind == 'generator':
+    if kind in ('generator', 'empty_gen'):
         def gen():
             for j, item in enumerate(value):
                 if fault_kind == 'raise_in_generator' and j == 1:
                     raise LabFault(f'{full} generator fault uid={uid}')
                 yield item
         return gen()
-    if kind in ('dir', 'continues'):
+    if kind in ('dir', 'continues', 'empty_dir'):
         data = task.get_data_object()
         for name, content in value.items():
             p = data.dir / name
